@@ -49,6 +49,28 @@ def col_deps_impl(case, est, rng):
     return deps
 
 
+def rounding_noise(case, est, Xt):
+    """how far rounding-level changes of the data (relative / absolute 1e-15 and 1e-14, a few units in the last place)
+    move the implementation's own output, in the measure of the value comparison (relative to max(1, |value|))"""
+    worst = 0.0
+    try:
+        X = np.array(st.X_of(case), dtype=float)
+        ep = 1 if case['ep'] else 0
+        for eps in (1e-15, -1e-15, 1e-14, -1e-14):
+            Z = X.copy(order='K')
+            Z[:, ep:] = Z[:, ep:] * (1 + eps) + eps
+            out = est.transform(Z)
+            if out.shape != Xt.shape:
+                return 0.0
+            d = np.abs(out - Xt) / np.maximum(1.0, np.abs(Xt))
+            d = d[np.isfinite(d)]
+            if d.size:
+                worst = max(worst, float(d.max()))
+    except Exception:
+        return 0.0
+    return worst
+
+
 def _oracle(case, rng, est=None):
     """replace only the input columns: the lifted-state block must be bit-identical, and the output must
     have exactly episode + n_states_out_ + n_inputs_out_ columns"""
@@ -68,7 +90,8 @@ def _oracle(case, rng, est=None):
             return 'input-dependent features declared without any input'
         return None
     for trial in range(3):
-        Xp = X.copy()
+        # (same memory layout as X: the SAME values in C and in Fortran order can differ in the last bit downstream)
+        Xp = X.copy(order='K')
         Xp[:, ep + nx:] = np.array([[rng.uniform(-3, 3) for _ in range(nu)] for _ in range(X.shape[0])])
         Xtp = est.transform(Xp)
         a = Xt[:, :ep + est.n_states_out_]
@@ -116,11 +139,338 @@ def opaque_sweep(rng):
             yield {'spec': spec, 'nx': 2, 'nu': 1, 'ep': ep, 'rows': rows, 'min_len': 1, 'form': 'c', 'degenerate': False}
 
 
+# ----------------------------------------------------------------------------- object lifecycle: edits after fit, no refit
+
+_RBFS = ('gaussian', 'exponential', 'multiquadric', 'inverse_quadratic')
+_REPLACEMENTS = ({'k': 'delay', 'dx': 1, 'du': 0}, {'k': 'delay', 'dx': 0, 'du': 1}, {'k': 'poly', 'order': 2, 'io': False},
+                 {'k': 'sk', 'scaler': 'maxabs'})
+
+
+def _value(vs):
+    """a stored (JSON-able) edit value -> the object handed to set_params"""
+    if 'v' in vs:
+        return vs['v']
+    if 'stage' in vs:
+        return pipes.build(vs['stage'])
+    if 'centers' in vs:
+        return pipes._centers(vs['centers'])
+    if 'kernel' in vs:
+        return pipes._kernel(vs['kernel'])
+    if 'scaler' in vs:
+        return pipes._SCALERS[vs['scaler']]()
+    if 'array' in vs:
+        return np.array(vs['array'], dtype=int)
+    raise ValueError(vs)
+
+
+def gen_edits(rng, spec):
+    """parameter edits that reach a NESTED stage through the composite (`name__...__param` keys of set_params, every
+    scalar / object-valued parameter of every stage at every depth), and whole steps replaced by name; values are other
+    valid values of the same parameter. Returns a list of [key, stored value]."""
+    import pykoop
+    params = pipes.build(spec).get_params(deep=True)
+    keys = sorted(params)
+    groups = []
+    for k in keys:
+        parts = k.split('__')
+        leaf, v = parts[-1], params[k]
+        if 'regressor' in parts or leaf.startswith('lifting_functions'):
+            continue
+        if leaf == 'copy':
+            continue        # (copy=False asks scikit-learn to work in place on the caller's matrix: the data itself would change)
+        if isinstance(v, pykoop.KoopmanLiftingFn):
+            if not isinstance(v, (pykoop.KoopmanPipeline, pykoop.SplitPipeline)):
+                groups.append([[k, {'stage': dict(rng.choice(_REPLACEMENTS))}]])      # a whole step replaced by name
+            continue
+        if len(parts) < 2:
+            continue
+        if isinstance(v, (bool, np.bool_)):
+            groups.append([[k, {'v': not bool(v)}]])
+        elif isinstance(v, (int, np.integer)):
+            nv = int(v) + 1 if leaf == 'random_state' else rng.choice([x for x in (0, 1, 2, 3) if x != int(v)])
+            groups.append([[k, {'v': nv}]])
+        elif isinstance(v, (float, np.floating)):
+            groups.append([[k, {'v': round(float(v) * 2 + 0.5, 3)}]])
+        elif leaf == 'offset' and v is None:
+            groups.append([[k, {'v': 0.5}]])
+        elif leaf == 'rbf' and isinstance(v, str):
+            groups.append([[k, {'v': rng.choice([r for r in _RBFS if r != v])}]])
+        elif leaf == 'centers':
+            groups.append([[k, {'centers': {'centers': rng.choice(['uniform', 'gaussian', 'qmc']), 'n': rng.choice([1, 2, 5]), 'seed': 7}}]])
+        elif leaf == 'kernel_approx':
+            groups.append([[k, {'kernel': {'method': rng.choice(['rff', 'rbfsampler']), 'n': rng.choice([1, 4]), 'seed': 11}}]])
+        elif leaf == 'transformer':
+            groups.append([[k, {'scaler': rng.choice(sorted(pipes._SCALERS))}]])
+        elif leaf == 'angle_features':
+            groups.append([[k, {'array': [] if len(v) else [0]}]])
+    # both delays of one stage in a single call: exchanged (with as many inputs as states the lifted width and the number
+    # of dropped samples stay what they were), or a fresh pair
+    for k in keys:
+        if k.endswith('__n_delays_state') and (k[:-5] + 'input') in params:
+            ki = k[:-5] + 'input'
+            dx, du = int(params[k]), int(params[ki])
+            if dx != du:
+                groups.append([[k, {'v': du}], [ki, {'v': dx}]])
+            for _ in range(2):
+                pair = rng.choice([(a, b) for a in range(4) for b in range(4) if (a, b) != (dx, du)])
+                groups.append([[k, {'v': pair[0]}], [ki, {'v': pair[1]}]])
+    if not groups:
+        return []
+    r = rng.random()
+    chosen = groups if r < 0.15 else rng.sample(groups, min(len(groups), rng.choice([1, 1, 2, 3])))
+    edits, replaced = [], []
+    for g in chosen:
+        for k, vs in g:
+            if 'v' not in vs and 'array' not in vs:
+                replaced.append(k + '__')
+    for g in chosen:
+        for k, vs in g:
+            # (a parameter below a step / sub-object that is itself replaced would name a parameter of the OLD object)
+            if any(k.startswith(p) for p in replaced) or any(k == e[0] for e in edits):
+                continue
+            edits.append([k, vs])
+    return edits
+
+
+def _refit(est, case, X):
+    n_inputs, epf = pipes.arg_forms(case['spec'], case['nu'], case['ep'])
+    if case['spec']['k'] == 'pipe':
+        est.fit_transformers(X, n_inputs=n_inputs, episode_feature=epf)
+    else:
+        est.fit(X, n_inputs=n_inputs, episode_feature=epf)
+    return est
+
+
+_SIZES = ('order', 'n_delays_state', 'n_delays_input', 'n_points_per_feature', 'n_components', 'n_centers')
+
+
+def _refit_stays_small(case):
+    """(only bounds the COST of the refit part: widths multiply along a chain, and the generators' width cap was applied to
+    the parameters before the edit; growing edits are refitted only where no polynomial / grid stage can multiply them)"""
+    old = pipes.build(case['spec']).get_params(deep=True)
+    grows = False
+    for k, vs in case['edits']:
+        leaf = k.rsplit('__', 1)[-1]
+        if 'stage' in vs:
+            grows = True
+        elif leaf in _SIZES and not int(vs['v']) <= int(old[k]):
+            grows = True
+        if leaf == 'interaction_only' and not vs['v']:
+            grows = True
+    if not grows:
+        return True
+    multiplies = 'poly' in pipes.kinds_in(case['spec']) or any(
+        type(v).__name__ == 'GridCenters' for v in old.values())
+    return not multiplies
+
+
+def _apply_edits(est, case):
+    edits = [(k, _value(vs)) for k, vs in case['edits']]
+    if case.get('one_call', True):
+        est.set_params(**dict(edits))
+    else:
+        for k, v in edits:
+            est.set_params(**{k: v})
+
+
+def _declared(est):
+    return [int(est.n_states_out_), int(est.n_inputs_out_), int(est.n_features_out_), int(est.min_samples_)]
+
+
+def _lifecycle(case, rng):
+    """a fitted composite, nested parameters edited through set_params, used WITHOUT refit: (status, why).
+    The fitted object must keep lifting exactly as it was fitted: expected values come from the outputs recorded before
+    the edit and from a second estimator, fitted from the same spec on the same data, that is never edited; the partition
+    is checked directly (width = episode + n_states_out_ + n_inputs_out_, state block bit-identical under replacement of
+    the input columns, lift_state / lift_input = the two declared blocks)."""
+    X = np.array(st.X_of(case), dtype=float)
+    ep = 1 if case['ep'] else 0
+    nx, nu = case['nx'], case['nu']
+    try:
+        est = st.fit_case(case)
+        ref = st.fit_case(case)
+        Zs = [X]
+        for _ in range(2 if nu else 0):
+            Z = X.copy()
+            Z[:, ep + nx:] = np.array([[rng.uniform(-3, 3) for _ in range(nu)] for _ in range(X.shape[0])])
+            Zs.append(Z)
+        before = [est.transform(Z) for Z in Zs]
+        expect = [ref.transform(Z) for Z in Zs]
+        decl = _declared(est)
+    except Exception:
+        return 'rejected:fit', None
+    ns, ni = decl[0], decl[1]
+
+    def blocks(e, when):
+        """lift_state sees only the state columns, lift_input the whole matrix: the two declared blocks of transform"""
+        for Z, want in zip(Zs[:2], expect[:2]):
+            ls = e.lift_state(Z[:, :ep + nx])
+            if not same(ls, want[:, :ep + ns]):
+                return f'lift_state is not the declared lifted-state block of the fitted pipeline ({when})'
+            li = e.lift_input(Z)
+            w = np.hstack((want[:, :ep], want[:, ep + ns:]))
+            if not same(li, w):
+                return f'lift_input is not the declared lifted-input block of the fitted pipeline ({when})'
+        return None
+
+    for b, w in zip(before, expect):
+        if not same(b, w):
+            return 'rejected:fit-not-reproducible', None
+    try:
+        why = blocks(est, 'freshly fitted')
+    except Exception as ex:
+        why = f'lift_state / lift_input raised {type(ex).__name__}: {ex} (freshly fitted)'
+    if why:
+        return 'fresh', why
+    try:
+        _apply_edits(est, case)
+    except Exception:
+        return 'rejected:set_params', None
+    what = 'after set_params(' + ', '.join(k for k, _ in case['edits']) + ') on the fitted object, no refit'
+    try:
+        if _declared(est) != decl:
+            return 'edited', f'declared sizes {decl} became {_declared(est)} {what}'
+        for Z, b, w in zip(Zs, before, expect):
+            a = est.transform(Z)
+            if a.shape[1] != ep + ns + ni:
+                return 'edited', f'lifted width {a.shape[1]} is not episode + n_states_out_ ({ns}) + n_inputs_out_ ({ni}) {what}'
+            if a.shape != b.shape or not np.array_equal(a, b, equal_nan=True):
+                return 'edited', f'transform of the same data changed {what}'
+            if not same(a, w):
+                return 'edited', f'transform differs from an identically fitted, never edited estimator {what}'
+        why = _oracle(case, rng, est) or blocks(est, what)
+        if why:
+            return 'edited', why + ('' if what in why else f' ({what})')
+    except Exception as ex:
+        return 'edited', f'{type(ex).__name__}: {ex} raised {what}'
+    # and a refit follows the edited parameters: same partition oracle, same lifting as a new estimator given the same edits
+    if not _refit_stays_small(case):
+        return 'ok:refit-skipped', None
+    try:
+        _refit(est, case, X)
+        new = pipes.build(case['spec'])
+        _apply_edits(new, case)
+        _refit(new, case, X)
+    except Exception:
+        return 'ok:refit-rejected', None
+    try:
+        if _declared(est) != _declared(new) or not same(est.transform(Zs[-1]), new.transform(Zs[-1])):
+            return 'refit', 'a refit after set_params does not lift like a new estimator with the same parameters'
+        why = _oracle(case, rng, est)
+        if why:
+            return 'refit', why + ' (refitted after set_params)'
+    except Exception as ex:
+        return 'refit', f'{type(ex).__name__}: {ex} raised after set_params and refit'
+    return 'ok', None
+
+
+def _lifecycle_case(rng, spec, nx, nu):
+    epf = rng.random() < 0.6
+    m = pipes.loss(spec) + 3
+    eps, order = pipes.gen_layout(rng, m, extra=3, ep=epf)
+    rows = [([l] if epf else []) + [round(rng.uniform(-2.0, 2.0), 3) for _ in range(nx + nu)] for (l, t) in order]
+    case = {'spec': spec, 'nx': nx, 'nu': nu, 'ep': epf, 'rows': rows, 'min_len': m, 'form': 'c', 'degenerate': False}
+    try:
+        case['edits'] = gen_edits(rng, spec)
+    except Exception:
+        case['edits'] = []
+    case['one_call'] = rng.random() < 0.6
+    return case
+
+
+def lifecycle_sweep(rng):
+    """every kind of stage at every nesting position of a composite (pipeline, state / input branch of a split pipeline,
+    split pipeline inside a pipeline, pipeline inside a pipeline), as many inputs as states"""
+    nx = nu = 2
+    for kind in KINDS:
+        for wrap in ('pipe', 'split-state', 'split-input', 'pipe-split', 'pipe-pipe', 'pipe-split-input'):
+            for rep in range(2):
+                w = (nx, 0) if wrap in ('split-state', 'pipe-split') else ((0, nu) if wrap.endswith('input') else (nx, nu))
+                if kind == 'bilinear' and w[1] == 0 or kind == 'const' and w[0] == 0:
+                    continue
+                s = None
+                for _ in range(20):
+                    s = pipes.gen_row_stage(rng, [kind], *w)
+                    if kind != 'delay' or (s['dx'] + s['du'] <= 4 and (rep == 0 or s['dx'] != s['du'])):
+                        break
+                spec = {'pipe': {'k': 'pipe', 'ss': [s]},
+                        'split-state': {'k': 'split', 'a': [s], 'b': []},
+                        'split-input': {'k': 'split', 'a': [], 'b': [s]},
+                        'pipe-split': {'k': 'pipe', 'ss': [{'k': 'split', 'a': [s], 'b': []}]},
+                        'pipe-split-input': {'k': 'pipe', 'ss': [{'k': 'split', 'a': [], 'b': [s]}, {'k': 'poly', 'order': 2, 'io': False}]},
+                        'pipe-pipe': {'k': 'pipe', 'ss': [{'k': 'pipe', 'ss': [s]}]}}[wrap]
+                yield _lifecycle_case(rng, spec, nx, nu)
+
+
+def lifecycle_random(rng, n):
+    """random trees (all kinds, depth <= 3) below a composite, random nested edits"""
+    for _ in range(n):
+        c = st.gen_case(rng, KINDS, max_depth=3, cap=30, opaque=True)
+        spec = c['spec'] if c['spec']['k'] in ('pipe', 'split') else {'k': 'pipe', 'ss': [c['spec']]}
+        yield _lifecycle_case(rng, spec, c['nx'], c['nu'])
+
+
 def oracle(case, rng, est=None):
+    if case.get('edits') is not None:
+        try:
+            return _lifecycle(case, rng)[1]
+        except Exception as ex:
+            return f'lifecycle check raised {type(ex).__name__}: {ex}'
     try:
         return _oracle(case, rng, est)
     except Exception as ex:
         return f'transform raised {type(ex).__name__}: {ex}'
+
+
+class _TimeUp(BaseException):
+    pass
+
+
+class _time_limit:
+    """wall-clock bound for one case (main thread only; elsewhere no bound)"""
+
+    def __init__(self, seconds):
+        self.seconds = seconds
+        self.armed = False
+
+    def _ring(self, *a):
+        raise _TimeUp()
+
+    def __enter__(self):
+        import signal
+        import threading
+        if threading.current_thread() is threading.main_thread() and hasattr(signal, 'setitimer'):
+            self.prev = signal.signal(signal.SIGALRM, self._ring)
+            signal.setitimer(signal.ITIMER_REAL, self.seconds)
+            self.armed = True
+        return self
+
+    def __exit__(self, *a):
+        if self.armed:
+            import signal
+            signal.setitimer(signal.ITIMER_REAL, 0)
+            signal.signal(signal.SIGALRM, self.prev)
+        return False
+
+
+def lifecycle_checks(ctx, n):
+    for gen, label in ((lifecycle_sweep(ctx.rng), 'sweep'), (lifecycle_random(ctx.rng, n), 'random')):
+        for c in gen:
+            if not c['edits']:
+                ctx.count('lifecycle: nothing to edit')
+                continue
+            try:
+                with _time_limit(30):
+                    status, why = _lifecycle(c, ctx.rng)
+            except _TimeUp:
+                status, why = 'not evaluated (time limit)', None
+            except Exception as ex:
+                status, why = 'edited', f'lifecycle check raised {type(ex).__name__}: {ex}'
+            ctx.count(f'lifecycle {label}: {status}')
+            if why:
+                tags = st.case_tags(c)
+                tags['lifecycle'] = status
+                ctx.fail(why, c, tags)
 
 
 def population_search(ctx):
@@ -138,10 +488,16 @@ def run(ctx):
     ctx.rule = ('random lifting-function trees (all kinds, depth<=3) x dims x layouts; observation: the full '
                 'transform (tagged integers exact / symbolic terms rel 1e-9), the declared partition, and the '
                 'column dependency map (model: dependency-set instance; implementation: single-column '
-                'perturbation); non-trivial = at least one stage, two rows')
+                'perturbation); non-trivial = at least one stage, two rows; object lifecycle: fitted composites '
+                '(every kind at every nesting position + random trees) whose nested stage parameters are edited through '
+                'set_params / whose steps are replaced by name AFTER fit, then used without refit and after a refit')
     ctx.explanation = ('theorems C02_* (state block locality by induction over the tree, every kind contributing '
                        'its row-level lemma rowFn_xloc); correspondence on values, partition and dependency map; '
-                       'oracle: replace the input columns, state block must be bit-identical')
+                       'oracle: replace the input columns, state block must be bit-identical; lifecycle oracle: after '
+                       'nested set_params on a fitted composite (no refit) transform is bit-identical to the output '
+                       'recorded before the edit and equal to a never-edited twin, width = episode + n_states_out_ + '
+                       'n_inputs_out_, state block input-independent, lift_state / lift_input = the declared blocks; a '
+                       'refit lifts like a new estimator with the edited parameters')
     ctx.proof_obligations('Properties.C02', THEOREMS)
     drv = ctx.get_driver()
     n = ctx.n(160, 2000)
@@ -181,6 +537,15 @@ def run(ctx):
         st.count_dist(ctx, c)
         ctx.record_case({k: c[k] for k in ('spec', 'nx', 'nu', 'ep', 'rows')}, st.nontrivial(c))
         why = st.compare_values(Xt, replies[3 * i], c, cells, reg)
+        if why and cells is not None:
+            # a lifting that amplifies rounding (e.g. a Nystroem map fitted on repeated samples: its normalisation has gain
+            # 1e6, so batch and row-wise evaluation of the SAME fitted map differ by 1e-10 .. 1e-8): where the measured
+            # rounding noise of the implementation's own output comes within two orders of the tolerance, the values are
+            # compared at 100 x that noise instead (never below 1e-9)
+            noise = rounding_noise(c, est, Xt)
+            if noise > 1e-11:
+                ctx.count('values compared at 100 x the measured rounding noise of the lifting')
+                why = st.compare_values(Xt, replies[3 * i], c, cells, reg, rtol=max(1e-9, 100 * noise))
         if why:
             ctx.mismatch('transform(X): ' + why, c, None, None)
             bad.append(c)
@@ -207,6 +572,7 @@ def run(ctx):
         if why:
             small = st.shrink(fc, lambda x: oracle(x, ctx.rng))
             ctx.fail(oracle(small, ctx.rng) or why, small, {'kinds': sorted(pipes.kinds_in(c['spec']))})
+    lifecycle_checks(ctx, ctx.n(60, 600))
 
     def search(ctx):
         for c in bad[:40]:
